@@ -149,7 +149,7 @@ def build(macro, depths, flavour=None, handler=None, lets=(), rich=False, reader
         htext = "|%s| { %s %s }" % (args, log, body)
         if hexpr_ev:
             # the handler OPERAND itself has a visible evaluation (its own trace key `hx`: how often, not when)
-            htext = "{ ev0(\"hx.x.e\"); %s }" % htext
+            htext = "{ ev0(\"hx.0.e\"); %s }" % htext
         h = (handler, htext, hpos)
     return Program(macro, branches, handler=h, flavour=flavour)
 
